@@ -119,9 +119,19 @@ def ev_list(xs, w, api, axis="x"):
 KERNELS = ["Uniform", "Triangular", "Gaussian", "Exponential", "Epanechnikov", "Dirac", "Cubic", "Spheric"]
 
 
-def make_kernel(name, width, boundary):
+def make_kernel(name, width, boundary, used=False):
+    """used: the kernel OBJECT has a history - it already filtered another signal with the opposite boundary setting before
+    being given the setting under test (a kernel object is meant to be configured and reused)"""
     import tracklib.core.kernel as K
     k = K.DiracKernel() if name == "Dirac" else getattr(K, name + "Kernel")(width)
+    if used:
+        import tk
+        from tracklib.core.operators import Operator
+        k.setFilterBoundary(not boundary)
+        n = max(3, 2 * len(k.toSlidingWindow()))
+        t = tk.mk_track(list(range(n)))
+        t.createAnalyticalFeature("h", [float((7 * i) % 5) for i in range(n)])
+        t.operate(Operator.FILTER, "h", k, "h2")
     k.setFilterBoundary(boundary)
     return k
 
@@ -142,7 +152,9 @@ def ev_kernel(xs, name, width, boundary, api, axis="x"):
              "bd": boundary, "raised": False, "o": []}
     try:
         with core.quiet():
-            out = apply_filter(xs, width if api == "smooth" else make_kernel(name, width, boundary), api, axis)
+            used = name != "Dirac" and (len(xs) + int(width * 2) + (1 if boundary else 0)) % 2 == 0
+            e["hist"] = "kernel object used before with the other boundary setting" if used else ""
+            out = apply_filter(xs, width if api == "smooth" else make_kernel(name, width, boundary, used), api, axis)
         if e["ev"] == "filt":
             e["out"] = [abs_exact(v, sum(ints)) for v in out]
         else:
